@@ -182,7 +182,12 @@ pub fn c06_family(rep: &mut Report) {
 /// goes unnoticed with probability (1/n!)^(attempts-1).
 pub fn c06_internal_sets_family(rep: &mut Report) {
     use crate::pipeline::{self, Cfg, Outcome, SrcFile, ALL_LANGS};
-    let programs: [(&str, &str, bool); 3] = [
+    let programs: [(&str, &str, bool); 4] = [
+        (
+            "alias-chains-and-variants-carrying-them",
+            "#[typeshare]\npub struct Point { pub x: u32 }\n#[typeshare]\npub type Position = Point;\n#[typeshare]\npub type Anchor = Position;\n#[typeshare]\npub type Pin = Anchor;\n#[typeshare]\npub type Label = String;\n#[typeshare]\npub type Title = Label;\n#[typeshare]\n#[serde(tag = \"t\", content = \"c\")]\npub enum Shape { Pinned(Anchor), Placed(Pin), Named(Title), At(Position), Raw(Point), Free }\n",
+            false,
+        ),
         (
             "several-generic-parameter-names",
             "#[typeshare]\npub struct Pair<K, V> { pub k: K, pub v: V }\n#[typeshare]\npub struct Wrap<T> { pub t: Vec<T> }\n#[typeshare]\npub struct Tri<A, B, C> { pub a: A, pub b: Option<B>, pub c: Vec<C> }\n#[typeshare]\n#[serde(tag = \"t\", content = \"c\")]\npub enum Res<T, E> { Good(T), Bad(E), Both { t: T, e: E } }\n",
@@ -293,6 +298,40 @@ pub fn c06_internal_sets_family(rep: &mut Report) {
                 rep.vios.add(Violation {
                     sig: format!("C06|nondeterministic-output|internal-collection-order|multi-file-with-type-mappings|{}", lang.name()),
                     detail: json!({"lang": lang.name(), "crates": {"types": a, "app": b}, "type_mappings": cfg.type_mappings, "distinct_outputs": outs.len(), "runs": attempts, "output_a": x.0, "times_a": x.1, "output_b": y.0, "times_b": y.1}),
+                });
+            }
+        }
+    }
+    // one crate whose two files each import a same-named type from a different crate
+    {
+        let files = [
+            SrcFile { crate_name: "alpha".into(), path: "alpha/src/lib.rs".into(), source: "#[typeshare]\npub struct Item { pub a: u32 }\n#[typeshare]\npub struct OnlyAlpha { pub x: u32 }\n".into() },
+            SrcFile { crate_name: "beta".into(), path: "beta/src/lib.rs".into(), source: "#[typeshare]\npub struct Item { pub b: u32 }\n#[typeshare]\npub struct OnlyBeta { pub y: u32 }\n".into() },
+            SrcFile { crate_name: "gamma".into(), path: "gamma/src/one.rs".into(), source: "use alpha::{Item, OnlyAlpha};\n#[typeshare]\npub struct FromAlpha { pub i: Item, pub o: OnlyAlpha }\n".into() },
+            SrcFile { crate_name: "gamma".into(), path: "gamma/src/two.rs".into(), source: "use beta::{Item, OnlyBeta};\n#[typeshare]\npub struct FromBeta { pub i: Vec<Item>, pub o: OnlyBeta }\n".into() },
+        ];
+        for &lang in &ALL_LANGS {
+            let mut cfg = Cfg::plain();
+            cfg.multi_file = true;
+            let mut outs: BTreeMap<String, usize> = BTreeMap::new();
+            for _ in 0..attempts {
+                let o = std::thread::scope(|s| s.spawn(|| pipeline::run(&files, lang, &cfg)).join());
+                total += 1;
+                let key = match o {
+                    Ok(Outcome::Ok(m)) => m.iter().map(|(k, v)| format!("== {k}\n{v}")).collect::<Vec<_>>().join("\n"),
+                    Ok(other) => format!("<{}>", other.kind()),
+                    Err(_) => "<thread panicked>".into(),
+                };
+                *outs.entry(key).or_insert(0) += 1;
+            }
+            rows.push(json!({"program": "same-named-type-imported-from-two-crates-in-two-files", "lang": lang.name(), "fresh_seeds": attempts, "distinct_outputs": outs.len()}));
+            if outs.len() > 1 {
+                let mut it = outs.iter();
+                let x = it.next().unwrap();
+                let y = it.next().unwrap();
+                rep.vios.add(Violation {
+                    sig: format!("C06|nondeterministic-output|internal-collection-order|same-name-from-two-crates|{}", lang.name()),
+                    detail: json!({"lang": lang.name(), "files": files.iter().map(|f| json!({"crate": f.crate_name, "path": f.path, "source": f.source})).collect::<Vec<_>>(), "distinct_outputs": outs.len(), "runs": attempts, "output_a": x.0, "times_a": x.1, "output_b": y.0, "times_b": y.1}),
                 });
             }
         }
